@@ -82,6 +82,31 @@ struct ShThunk {
     orig: Option<Sh>,
 }
 
+/// A copy of a thunk's data (`ThunkData::clone`, `ThunkData::map`) is a new independent thunk: it
+/// is never born black-holed or locked.
+fn sh_copied(c: &ShThunk) -> ShThunk {
+    let mut n = c.clone();
+    if n.state == 'B' {
+        n.state = 'S';
+    }
+    n.locked = false;
+    n
+}
+
+/// Is this the only handle to the thunk?  Known exactly with hook H7 only.
+fn thunk_unique(t: &Thunk) -> Option<bool> {
+    #[cfg(feature = "h7")]
+    {
+        let tmp: NickelValue = t.clone().into();
+        tmp.verif_ref_count().map(|n| n - 1 == 1)
+    }
+    #[cfg(not(feature = "h7"))]
+    {
+        let _ = t;
+        None
+    }
+}
+
 fn sh_inl(i: u8) -> &'static str {
     match i {
         0 => "null",
@@ -868,7 +893,7 @@ impl Replay {
                     if was_thunk { Root::T(v.try_into_thunk().ok().unwrap()) } else { Root::V(v) }
                 };
                 let sh2 = match &sh {
-                    Sh::Thunk(t) => Sh::Thunk(Rc::new(RefCell::new(t.borrow().clone()))),
+                    Sh::Thunk(t) => Sh::Thunk(Rc::new(RefCell::new(sh_copied(&t.borrow())))),
                     other => other.clone(),
                 };
                 self.roots[s] = Some(wrap(back));
@@ -885,10 +910,13 @@ impl Replay {
                 let was_thunk = matches!(r, Root::T(_));
                 let v = r.into_value();
                 let p = v.pos_idx();
+                // make_unique copies the block iff it is shared: observed as a change of address
+                let before = format!("{v:p}");
                 let v = v.with_pos_idx(p);
+                let moved = format!("{v:p}") != before;
                 let sh = match sh {
-                    Sh::Thunk(t) => {
-                        let c = t.borrow().clone();
+                    Sh::Thunk(t) if moved => {
+                        let c = sh_copied(&t.borrow());
                         Sh::Thunk(Rc::new(RefCell::new(c)))
                     }
                     other => other,
@@ -1048,8 +1076,7 @@ impl Replay {
                     }
                     _ => {
                         let nt = t.map(|c| c.clone());
-                        let mut c = st.borrow().clone();
-                        c.locked = false;
+                        let c = sh_copied(&st.borrow());
                         self.push(Root::T(nt), Sh::Thunk(Rc::new(RefCell::new(c))));
                         "d".into()
                     }
@@ -1118,12 +1145,24 @@ impl Replay {
                         Err(_) => "P".into(),
                     }
                 } else {
+                    // a standard thunk: the data are moved when this is the only handle (state and
+                    // lock kept), cloned otherwise (a copy: never black-holed, never locked)
+                    let uniq = thunk_unique(&t);
                     let v = t.saturate(std::iter::empty::<Ident>());
                     let b = st.borrow();
                     let c = if b.rev {
                         ShThunk { rev: false, state: 'S', locked: false, clo: b.orig.clone(), orig: None }
                     } else {
-                        b.clone()
+                        match uniq {
+                            Some(true) => b.clone(),
+                            Some(false) => sh_copied(&b),
+                            None => {
+                                // without the hook the count is not observable: either is admissible
+                                let cp = sh_copied(&b);
+                                let real = v.as_thunk().map(|t| (state_char(t.state()), is_locked(t)));
+                                if real == Some((cp.state, cp.locked)) { cp } else { b.clone() }
+                            }
+                        }
                     };
                     drop(b);
                     self.push(Root::V(v), Sh::Thunk(Rc::new(RefCell::new(c))));
